@@ -431,6 +431,18 @@ Definition wfb (fs : fsys) (d : document) : bool :=
   nodupb (map fst (parts (cont d))) && nodupb (map fst (xps d))
   && match cpath (cont d) with Some p => match disk_entries fs p with Some es => nodupb (map fst es) | None => true end | None => true end.
 
+(* folder packaging: every part held in memory either carries the current time stamp or has no file behind it, so that
+   get_part keeps it (otherwise the next read replaces it by the file's content: F34) *)
+Definition ts_invb (fs : fsys) (d : document) : bool :=
+  let c := cont d in
+  match pkg c, cpath c with
+  | PFolder, Some _ =>
+      forallb (fun e => match snd e with
+                        | Some _ => memz (fst e) (tsl c) || match disk_lookup fs (cpath c) (fst e) with Some _ => false | None => true end
+                        | None => true end) (parts c)
+  | _, _ => true
+  end.
+
 (* a saved zip: first entry mimetype STORED, unique names, manifest ~ entries, "/" carries the mimetype *)
 Definition zip_names (es : list (name * bool * bytes)) : list name := map (fun e => fst (fst e)) es.
 Definition zip_shapeb (es : list (name * bool * bytes)) : bool :=
@@ -483,9 +495,13 @@ Definition ent_eqb (a b : name * mtype) := (fst a =? fst b) && (snd a =? snd b).
 Definition cx_eqb (a b : cxml) : bool :=
   match a, b with CX s l es ks, CX s' l' es' ks' =>
     (l =? l') && ((s =? 0) || (s' =? 0) || (s =? s')) && list_eqb ent_eqb es es' && list_eqb Z.eqb ks ks' end.
-(* exact: the layout too *)
-Definition cx_eqb_exact (a b : cxml) : bool :=
-  match a, b with CX s l es ks, CX s' l' es' ks' => (l =? l') && (s =? s') && list_eqb ent_eqb es es' && list_eqb Z.eqb ks ks' end.
+Definition cx_eqb_exact := cx_eqb.
+(* layout ignored altogether (after a pretty save) *)
+Definition cx_eqb_loose (a b : cxml) : bool :=
+  match a, b with CX s l es ks, CX s' l' es' ks' => (l =? l') && list_eqb ent_eqb es es' && list_eqb Z.eqb ks ks' end.
+Definition ccont_eqb_loose (a b : content cxml cbytes) : bool :=
+  match a, b with CBytes (CB x), CBytes (CB y) => x =? y | CBytes (CS x), CBytes (CS y) => cx_eqb_loose x y
+                | CXml x, CXml y => cx_eqb_loose x y | _, _ => false end.
 Definition cb_eqb (a b : cbytes) : bool :=
   match a, b with CB x, CB y => x =? y | CS x, CS y => cx_eqb x y | _, _ => false end.
 Definition ccont_eqb (a b : content cxml cbytes) : bool :=
@@ -501,6 +517,7 @@ Definition cview := view cxml cbytes Z cpar cmask.
 Definition cfile_view := file_view cxml cbytes Z cpar cmask.
 Definition cPkgOKb := PkgOKb cxml cbytes Z cpar centries cmime.
 Definition cwfb := wfb cxml cbytes Z.
+Definition cts_invb := ts_invb cxml cbytes Z.
 Definition czip_shapeb := zip_shapeb cxml cbytes cpar centries cmime.
 Definition cnames := names_of cxml cbytes Z.
 (* equality of two part maps over the names either side mentions *)
